@@ -3,7 +3,7 @@ import itertools, random
 from common import *
 
 KEYS = ["a", "b"]
-FIELDS = ["f", "g", "", "f\r\n\x00\xff", "12", "new", "big"]
+FIELDS = ["f", "g", "", "f\r\n\x00\xff", "12", "new", "big", "%s"]
 # binary64 arithmetic must stay exact (brief §7): integers beyond 2^31 live only in field "big", which never holds a float and is
 # never the target of HINCRBYFLOAT; every other field only meets small numbers.
 # value tokens satisfy Adapt.simple_token (on these AdaptValue is modelled exactly), plus "1.50" and "+Inf" (outside the
